@@ -300,7 +300,13 @@ def memory_regions(res, prog):
                 vals = dict((n, re.sub(r'\b_\d+\b', '_', show(f.expand(f.operand_tree(x))))) for n, x in zip(s_['rv'].get('fields', []), s_['rv']['xs']))
                 item = re.sub(r'\\d\*', '', ITEM)
                 if 'DESCRIPTOR64' in f.qual:
-                    it = '(Some.0 (<std::vec::IntoIter<T, A> as std::iter::Iterator>::next _))'
+                    # the descriptor: an item of the Vec of descriptors read first, or the descriptor just read (one fused loop)
+                    it = vals.get('desc') or '?'
+                    it_ok = it == '(Some.0 (<std::vec::IntoIter<T, A> as std::iter::Iterator>::next _))' or re.match(
+                        r'^\(Continue\.0 \(trybranch \(std::result::Result::or \(<\[u8\] as scroll::Pread<Ctx, E>>::gread_with bytes \w+ endian\) \(adt std::result::Result::Err \(adt minidump::minidump::Error::StreamReadFailure\)\)\)\)\)$', it)
+                    res.rule('C02.6', 1)
+                    if not it_ok:
+                        res.violation('C02.6', 'C02.6|mem64|desc-source', f, s_.get('line'), 'the descriptor of a Memory64 region is %s, not a descriptor as read from the stream' % it[:200])
                     want = {
                         'desc': it,
                         'base_address': it + '.start_of_memory_range',
